@@ -500,7 +500,7 @@ theorem v12_create_no_auth {e : PDU} (hf : e.fmt = .v3) (hc : isCreate e = true)
 /-! ### The events `Sign`, `SetUnsigned` and `SetUnsignedField` return are the same event
 
 `Sign()` and `SetUnsigned()` return a copy, `SetUnsignedField()` edits in place; in every room version the result is an
-event of the SAME struct (eventV3 overrides `Sign` and `SetUnsigned` since /repo af16fb2 — before it the result for a
+event of the SAME struct (eventV3 overrides `Sign` and `SetUnsigned` since /repo 2aa10ca — before it the result for a
 version-12 event was an `*eventV2`: `RoomID()` of a create event panicked, `AuthEventIDs()` of any other event lost the
 create event; `event.derived` is the correspondence op) with the same decoded fields, so the two version-12 clauses
 above — and every accessor C03 lists — carry over to it. -/
